@@ -14,6 +14,7 @@ package vm
 //@ pred listHolds(t, pg, n) = llen[t.entries] == n && n >= 0
 //@   && (forall k int :: 0 <= k && k < n ==> elemAt(t, k) != nil && fresh(elemAt(t, k)) && elemAt(t, k) <= allocTop && lown[elemAt(t, k)] == t.entries && lpos[elemAt(t, k)] == k && hastype(elemAt(t, k).Value, "Page") && ifaceval(elemAt(t, k).Value) <= allocTop)
 //@   && (forall k in 0..n :: pageOf(elemAt(t, k)) == pg[k])
+//@   && (forall k int :: 0 <= k && k < n ==> pageOf(elemAt(t, k)) == pg[k])   // same fact, indexed from the list side (helps instantiation)
 // mapPoints(t): every map entry points at an element of t's list that holds a page with that VAddr.
 //@ pred mapPoints(t) = forall v uint64 :: v in t.entriesTable ==> t.entriesTable[v] != nil && t.entriesTable[v] <= allocTop && lown[t.entriesTable[v]] == t.entries && 0 <= lpos[t.entriesTable[v]] && lpos[t.entriesTable[v]] < llen[t.entries] && lseq[t.entries][lpos[t.entriesTable[v]]] == t.entriesTable[v] && hastype(t.entriesTable[v].Value, "Page") && ifaceval(t.entriesTable[v].Value) <= allocTop && pageOf(t.entriesTable[v]).VAddr == v
 // mapCovers(t, n): the VAddr of every listed page is a key, and the key points at the LAST listed page with that VAddr
